@@ -264,6 +264,7 @@ class Check:
     def env(self):
         e = dict(os.environ)
         e.update(SAN_ENV)
+        e['VF_KNOWN'] = KNOWN
         e['ASAN_SYMBOLIZER_PATH'] = shutil.which('llvm-symbolizer') or shutil.which('llvm-symbolizer-14') or ''
         e.update(self.spec.get('env', {}))
         for var, vname in self.spec.get('env_variants', {}).items():
@@ -459,6 +460,12 @@ def run_check(prop, spec, tier, replay_path=None):
         phase_info.append(dict(phase=ph['name'], mode=ph['mode'], shards=nsh, timeouts=ntimeout,
                                cases_per_shard=pt.get('cases') if ph['mode'] == 'rc' else None))
 
+    for d in phase_dirs:
+        kp = os.path.join(d, 'known-hits.txt')
+        if os.path.exists(kp):
+            for t in open(kp).read().splitlines():
+                if t and t not in known_hits:
+                    known_hits.append(t)
     tot = merge_counters(phase_dirs)
     classes = tot.pop('classes')
     # vacuity guard
@@ -482,6 +489,7 @@ def run_check(prop, spec, tier, replay_path=None):
         phases=phase_info,
         classes=dict(sorted(classes.items())[:4000]),
         notes=notes,
+        known_findings=list(known_hits),
         library_variant=vinfo['variant'],
         tree_fingerprint=vinfo['fingerprint'][:16],
     )
